@@ -1,5 +1,6 @@
 CONSTANTS
   LitPlusSet = {TRUE, FALSE}
+  Utf8Set = {TRUE, FALSE}
 INIT Init
 NEXT Next
 INVARIANTS TypeOK ContOnlyWhenWilling PayloadOnlyAsArgument
